@@ -8,6 +8,13 @@ use shapefile::*;
 /// Real writer, `specs.len()` shapes, explicit finalize or plain drop; then the strict
 /// independent walk + decode of the bytes left behind.
 pub fn wellformed<S: TShape, const N: usize>(specs: &[Spec], explicit_finalize: bool) {
+    wellformed_h::<S, N>(specs, explicit_finalize, usize::MAX)
+}
+
+/// Same, with an additional intermediate `finalize()` right after shape number `mid` (0-based;
+/// `usize::MAX`: none): the file left behind after the LAST finalize/drop must still be well-formed
+/// and hold every shape, i.e. shapes written after an earlier finalize are committed to the header too.
+pub fn wellformed_h<S: TShape, const N: usize>(specs: &[Spec], explicit_finalize: bool, mid: usize) {
     let n = specs.len();
     let mut built = [Model::empty(S::CODE); MAXR];
     let mut shp = MemFile::<N>::new();
@@ -21,6 +28,11 @@ pub fn wellformed<S: TShape, const N: usize>(specs: &[Spec], explicit_finalize: 
             let r = w.write_shape(&s);
             assert!(r.is_ok());
             std::mem::forget(r);
+            if i == mid {
+                let r = w.finalize();
+                assert!(r.is_ok());
+                std::mem::forget(r);
+            }
             i += 1;
         }
         if explicit_finalize {
@@ -57,6 +69,16 @@ macro_rules! wf {
         #[kani::unwind(22)]
         fn $name() {
             wellformed::<$T, $N>(&$specs, $fin);
+        }
+    };
+}
+
+macro_rules! wfh {
+    ($name:ident, $T:ty, $N:expr, $specs:expr, $fin:expr, $mid:expr) => {
+        #[kani::proof]
+        #[kani::unwind(22)]
+        fn $name() {
+            wellformed_h::<$T, $N>(&$specs, $fin, $mid);
         }
     };
 }
@@ -109,3 +131,10 @@ wf!(c02_t_polygonm_c4_c4, PolygonM, 448, [spec_k(&[4, 4], &[0, 1], &[], &[0, 1])
 wf!(c02_t_polygon_two, Polygon, 448, [spec_k(&[4], &[0], &[], &[0]), spec_k(&[3], &[1], &[0], &[])], false);
 // H: tier=thorough; sym=Polyline [2,3,4]; asserts=strict walk + decoded == written
 wf!(c02_t_polyline_234, Polyline, 352, [spec(&[2, 3, 4])], false);
+
+// H: tier=quick; sym=2 Points, finalize after the first, then drop; asserts=strict walk of the final file (header length covers both records) + decoded == written
+wfh!(c02_q_point_2_midfinalize_drop, Point, 192, [spec(&[]), spec(&[])], false, 0);
+// H: tier=quick; sym=3 PointM, finalize after the second, explicit finalize at the end; asserts=strict walk of the final file + decoded == written
+wfh!(c02_q_pointm_3_midfinalize_finalize, PointM, 256, [spec(&[]), spec(&[]), spec(&[])], true, 1);
+// H: tier=thorough; sym=2 Polylines (2,3 then 2), finalize after the first, then drop; asserts=strict walk of the final file + decoded == written
+wfh!(c02_t_polyline_23_then_2_midfinalize, Polyline, 384, [spec(&[2, 3]), spec(&[2])], false, 0);
